@@ -60,7 +60,7 @@ impl Prop for SvSync {
         "svsync"
     }
     fn cases(&self, tier: Tier) -> u64 {
-        tier.pick(60_000, 2_000_000)
+        tier.pick(300_000, 6_000_000)
     }
     fn strategy(&self, tier: Tier) -> BoxedStrategy<Case> {
         let mut shape = HistoryShape::default_for(tier);
@@ -235,7 +235,9 @@ impl Prop for SvSync {
             ensure!(rounds <= 4, "c06/no-fixpoint", "A and B still change after {} exchange rounds", rounds);
         }
         let (da, db) = (ra.dump(), rb.dump());
-        if da != db && (ra.has_missing() || rb.has_missing()) {
+        // (the state vectors may differ with equal dumps: a held block that is deleted anyway, and
+        // a block of another client that waits for it)
+        if (da != db || sv_map(ra) != sv_map(rb)) && (ra.has_missing() || rb.has_missing()) {
             // G6 again: both sides hold the same blocks, one of them partly in its stash
             let total = |r: &Replica| {
                 let txn = r.doc.transact();
@@ -244,7 +246,11 @@ impl Prop for SvSync {
                 knowledge(r).0.merge(&stash)
             };
             if total(ra) == total(rb) {
-                fail!("c06/held-behind-same-client", "fixpoint reached, both sides hold the same blocks but one keeps integrable ones in its stash: {}", first_diff(&da, &db).unwrap_or_default());
+                fail!(
+                    "c06/held-behind-same-client",
+                    "fixpoint reached, both sides hold the same blocks but one keeps integrable ones in its stash: {}",
+                    first_diff(&da, &db).unwrap_or_else(|| format!("state vectors {:?} vs {:?}", sv_map(ra), sv_map(rb)))
+                );
             }
         }
         if da != db {
